@@ -645,6 +645,7 @@ extern "C" int pmc_main(int argc, char** argv, const pmc_config* cfg, const pmc_
             {
                 setenv("PMC_NO_REEXEC", "1", 1);
                 setenv("MALLOC_ARENA_MAX", "1", 1);
+                setenv("LD_BIND_NOW", "1", 1);    // children are forked fresh: resolve PLT entries once
                 execv("/proc/self/exe", argv);
             }
         }
